@@ -44,48 +44,11 @@ def name_checker(p):
     return cands[0]
 
 
-def run_cfg(ctx, p, cfg):
-    from rules import accessors
-    accessors.rule_fidelity(ctx, p, cfg, "V7")
-    with ctx.rule("V1", "sole constructor", cfg) as r:
-        aggs = sorted({a[0].path for a in p.aggregates(CONFIG) if "Derive" not in (a[0].d.get("exp") or "")})
-        r.require(aggs == [BUILD_LOSSY], "config-built-only-by-build_lossy", detail="Config aggregates in: %s" % aggs)
-        for adt in (CONFIG, ROOT, LOGGER, APPENDER):
-            a = p.adt(adt)
-            for fld in a["variants"][0]["fields"]:
-                r.require(fld["vis"].startswith("Restricted"), "private:%s.%s" % (adt.rsplit("::", 1)[-1], fld["name"]), detail="visibility %s" % fld["vis"])
-        # public functions handing out mutable access
-        muts = []
-        for f in p.fns.values():
-            if f.vis != "Public" or not f.path.startswith("config::runtime::"):
-                continue
-            sig = f.d.get("sig", "")
-            ret = sig.rsplit("->", 1)[-1] if "->" in sig else ""
-            if "&" in ret and "mut " in ret:
-                muts.append((f.path, ret.strip()))
-        r.require(all(ret.endswith("mut config::runtime::Root") for pth, ret in muts), "mutable-access-only-to-root", detail="public functions returning &mut: %s" % muts)
-        # public &mut self methods of the four types write only non-list fields
-        for f in p.fns.values():
-            if f.vis != "Public" or f.d.get("impl_self_adt") not in (CONFIG, ROOT, LOGGER, APPENDER):
-                continue
-            if not (f.locals[1:2] and f.locals[1].startswith("&mut ")):
-                continue
-            ws = []
-            for b, i, st in f.assigns():
-                for e in st["lhs"]["p"]:
-                    if isinstance(e, dict) and e.get("adt") in (CONFIG, ROOT, LOGGER, APPENDER):
-                        ws.append((e["adt"].rsplit("::", 1)[-1], e["f"]))
-            calls_mut = [c.callee for c in f.calls() if any(t.startswith("&mut alloc::vec::Vec") or t.startswith("&mut alloc::string::String") for t in c.t.get("arg_tys", []))]
-            okw = all(_field_ty(p, a_, f_) == "log::LevelFilter" for a_, f_ in ws) and not calls_mut
-            r.require(okw, "public-mutator-touches-only-level:%s" % f.path, fn=f, detail="field writes %s, list-mutating calls %s" % (ws, calls_mut))
-        # unpack()/accessors are not constructors: Config::unpack is crate-private
-        for f in p.fns.values():
-            if f.d.get("impl_self_adt") == CONFIG and f.vis == "Public":
-                sig = f.d.get("sig", "")
-                r.require("Vec<config::runtime::Appender>" not in sig.rsplit("->", 1)[-1] or "&" in sig.rsplit("->", 1)[-1] or f.path.endswith("::builder"), "no-public-decomposition:%s" % f.path, fn=f,
-                          detail="signature %s" % sig[-120:])
 
-    with ctx.rule("V2", "retention filters", cfg) as r:
+def rule_retention(ctx, p, cfg, rid="V2"):
+    """what build_lossy keeps: an appender iff its name is new, a reference iff it names a kept appender, a logger iff its name
+    is new and well-formed; kept in order"""
+    with ctx.rule(rid, "retention filters", cfg) as r:
         f = p.fn(BUILD_LOSSY)
         nc = name_checker(p)
         pushes = f.calls(PUSH)
@@ -154,6 +117,49 @@ def run_cfg(ctx, p, cfg):
         # kept lists end up in the Config
         rets = q.ret_assignments(f)
         r.require(len(rets) == 1, "single-return", fn=f, detail="build_lossy has one return value")
+
+def run_cfg(ctx, p, cfg):
+    from rules import accessors
+    accessors.rule_fidelity(ctx, p, cfg, "V7")
+    with ctx.rule("V1", "sole constructor", cfg) as r:
+        aggs = sorted({a[0].path for a in p.aggregates(CONFIG) if "Derive" not in (a[0].d.get("exp") or "")})
+        r.require(aggs == [BUILD_LOSSY], "config-built-only-by-build_lossy", detail="Config aggregates in: %s" % aggs)
+        for adt in (CONFIG, ROOT, LOGGER, APPENDER):
+            a = p.adt(adt)
+            for fld in a["variants"][0]["fields"]:
+                r.require(fld["vis"].startswith("Restricted"), "private:%s.%s" % (adt.rsplit("::", 1)[-1], fld["name"]), detail="visibility %s" % fld["vis"])
+        # public functions handing out mutable access
+        muts = []
+        for f in p.fns.values():
+            if f.vis != "Public" or not f.path.startswith("config::runtime::"):
+                continue
+            sig = f.d.get("sig", "")
+            ret = sig.rsplit("->", 1)[-1] if "->" in sig else ""
+            if "&" in ret and "mut " in ret:
+                muts.append((f.path, ret.strip()))
+        r.require(all(ret.endswith("mut config::runtime::Root") for pth, ret in muts), "mutable-access-only-to-root", detail="public functions returning &mut: %s" % muts)
+        # public &mut self methods of the four types write only non-list fields
+        for f in p.fns.values():
+            if f.vis != "Public" or f.d.get("impl_self_adt") not in (CONFIG, ROOT, LOGGER, APPENDER):
+                continue
+            if not (f.locals[1:2] and f.locals[1].startswith("&mut ")):
+                continue
+            ws = []
+            for b, i, st in f.assigns():
+                for e in st["lhs"]["p"]:
+                    if isinstance(e, dict) and e.get("adt") in (CONFIG, ROOT, LOGGER, APPENDER):
+                        ws.append((e["adt"].rsplit("::", 1)[-1], e["f"]))
+            calls_mut = [c.callee for c in f.calls() if any(t.startswith("&mut alloc::vec::Vec") or t.startswith("&mut alloc::string::String") for t in c.t.get("arg_tys", []))]
+            okw = all(_field_ty(p, a_, f_) == "log::LevelFilter" for a_, f_ in ws) and not calls_mut
+            r.require(okw, "public-mutator-touches-only-level:%s" % f.path, fn=f, detail="field writes %s, list-mutating calls %s" % (ws, calls_mut))
+        # unpack()/accessors are not constructors: Config::unpack is crate-private
+        for f in p.fns.values():
+            if f.d.get("impl_self_adt") == CONFIG and f.vis == "Public":
+                sig = f.d.get("sig", "")
+                r.require("Vec<config::runtime::Appender>" not in sig.rsplit("->", 1)[-1] or "&" in sig.rsplit("->", 1)[-1] or f.path.endswith("::builder"), "no-public-decomposition:%s" % f.path, fn=f,
+                          detail="signature %s" % sig[-120:])
+
+    rule_retention(ctx, p, cfg, "V2")
 
     with ctx.rule("V3", "strictness and error payloads", cfg) as r:
         b = p.fn(BUILD)
